@@ -198,7 +198,7 @@ def _c15(ctx):
 
 def _c08(ctx):
     from .rules import poly, eff
-    p1 = eff.rule_E1(ctx, scope=[NSP + 'PolygonAreaT', NSP + 'Accumulator'], floor=15)
+    p1 = eff.rule_E1(ctx, scope=[NSP + 'PolygonAreaT', NSP + 'Accumulator'], floor=15, own_only=True)
     p1.rule = 'P1'
     p1.title = 'tentative queries cannot change the polygon: no const method of PolygonAreaT / Accumulator can write ' \
                'object state (no mutable member, pointee or static reachable)'
